@@ -114,7 +114,9 @@ func shortPts(pts data.Points) string {
 			sb.WriteString(" ")
 		}
 		fmt.Fprintf(&sb, "(%q,%q)@%d=%v", p.Type, p.Key, p.Time.UnixNano(), p.Value)
-		if p.Text != "" {
+		if len(p.Text) > 48 {
+			fmt.Fprintf(&sb, "/%q…(%d bytes)", p.Text[:16], len(p.Text))
+		} else if p.Text != "" {
 			fmt.Fprintf(&sb, "/%q", p.Text)
 		}
 	}
